@@ -19,7 +19,12 @@ View == <<dbs, sel>>
 
 kk == <<107>>
 B(i) == IntToBytes(i)
-SelectArgs == { <<B(0)>>, <<B(1)>>, <<B(NDb - 1)>>, <<B(NDb)>>, <<B(-1)>>, <<<<97>>>>, <<<<>>>>, <<B(0), B(1)>>, <<>>, <<<<48, 49>>>>, <<<<43, 49>>>> }
+\* numerically large arguments that are congruent to a valid index modulo 2^32 / 2^31 / 2^16 / 2^8 (integer truncation),
+\* and the int64 extremes: all out of range
+BigArgs == { <<<<52,50,57,52,57,54,55,50,57,54>>>>, <<<<52,50,57,52,57,54,55,50,57,55>>>>, <<<<45,52,50,57,52,57,54,55,50,57,53>>>>,
+             <<<<50,49,52,55,52,56,51,54,52,56>>>>, <<<<54,53,53,51,54>>>>, <<<<50,53,54>>>>, <<BigStr(Int64Max)>>, <<BigStr(Int64Min)>>,
+             <<<<49,56,52,52,54,55,52,52,48,55,51,55,48,57,53,53,49,54,49,54>>>> }
+SelectArgs == { <<B(0)>>, <<B(1)>>, <<B(NDb - 1)>>, <<B(NDb)>>, <<B(-1)>>, <<<<97>>>>, <<<<>>>>, <<B(0), B(1)>>, <<>>, <<<<48, 49>>>>, <<<<43, 49>>>> } \cup BigArgs
 DataCmds == { <<L_set, kk, <<97>>>>, <<L_set, kk, <<98>>>>, <<L_get, kk>>, <<L_del, kk>>, <<L_keys, L_star>>, <<L_exists, kk>>, <<L_append, kk, <<120>>>> }
 
 \* SELECT: exactly one argument that is a plain decimal index of a configured database
